@@ -205,6 +205,32 @@ theorem tie_operators :
     ctrlLastAckGuard = ["m.numCacheACK == 1", "!m.shootDownInProcess", "!m.ToDriver.CanSend()"] := by
   refine ⟨rfl, rfl, rfl, rfl, rfl, rfl, rfl, rfl, rfl, rfl, rfl, rfl, rfl, rfl, rfl, rfl⟩
 
+/-- **The three users of `numCacheACK` wait for each other exactly as `MgpuModel/C11CpShare.lean` says**
+    (`CpS.handle` / `Cp.handle`, `CpS.launch`, `CpS.hShoot`, `CpS.cacheRsp`): the conditions under which
+    each handler leaves its message in the port, in source order — `processFlushReq` waits for the counter
+    and for `shootDownInProcess` (repair 0728adcb), `processShootdownCommand` for `shootDownInProcess` and the
+    counter (same repair), `processMemCopyReq` for the counter and room in ToDMA, `processLaunchKernelReq`
+    for a free dispatcher and the counter — and NOT for `shootDownInProcess`: the open finding
+    `C11-cp-launch-in-shootdown` (`cps_no_fault_full_refuted`); when that guard is added this obligation
+    breaks and the refutation has to become a theorem. The `if`s of `invalidateL1CachesBeforeKernel` and of
+    `processCacheFlushRsp` (the order shootdown branch / invalidation branch / regular branch at 0). -/
+theorem tie_counter_users :
+    cpFlushWaits = ["m.numCacheACK > 0", "m.shootDownInProcess"] ∧
+    cpCopyWaits = ["m.numCacheACK > 0", "!m.ToDMA.CanSend()"] ∧
+    cpLaunchWaits = ["d == nil", "m.numCacheACK > 0"] ∧
+    ctrlShootdownWaits = ["m.shootDownInProcess", "m.numCacheACK > 0"] ∧
+    cpInvalidateIfs = ["m.l1InvalidatedFor == req", "d.IsDispatching()", "m.numCacheACK == 0"] ∧
+    ctrlCacheRspIfs = ["m.numCacheACK == 1 && !m.shootDownInProcess && !m.ToDriver.CanSend()", "m.numCacheACK == 0",
+      "m.shootDownInProcess", "m.l1InvalidatedFor != nil"] := by
+  refine ⟨rfl, rfl, rfl, rfl, rfl, rfl⟩
+
+/-- the model's launch takes the same decisions in the same order: no free dispatcher → wait; counter
+    above 0 → wait; otherwise the request is handled (here: second handling after the invalidation) -/
+example : (({ nDisp := 1, busy := 1 } : CpS).launch 0 []).2 = false ∧
+    (({ c := { numAck := 1 } } : CpS).launch 0 []).2 = false ∧
+    (({ l1Inv := some 0 } : CpS).launch 0 []).1.started = 1 ∧
+    (({ shoot := true, nS := 1 } : CpS).launch 0 []).1.c.numAck = 1 := by decide +kernel
+
 /-- **`Mq.delay` is the delay line of `defaultMemoryCopyMiddleware.Tick` with the generated
     operators and idle value.** -/
 theorem tie_mq_delay (s : Mq) :
@@ -449,7 +475,8 @@ theorem tie_dispatch :
     cpCloneDispatch = [("*protocol.MemCopyH2DReq", "cloneMemCopyH2DReq"), ("*protocol.MemCopyD2HReq", "cloneMemCopyD2HReq"),
       ("default", "panic")] ∧
     ctrlRspFromCachesDispatch = [("*cache.FlushRsp", "processCacheFlushRsp"), ("*cache.RestartRsp", "processCacheRestartRsp")] ∧
-    drvProcessCommandDispatch = [("*MemCopyH2DCommand", "processMemCopyH2DCommand"), ("*MemCopyD2HCommand", "processMemCopyD2HCommand")] ∧
+    drvProcessCommandDispatch = [("*MemCopyH2DCommand", "processMemCopyH2DCommand"), ("*MemCopyD2HCommand", "processMemCopyD2HCommand"),
+      ("*FlushCommand", "processFlushCommand")] ∧
     drvTickDispatch = [("*sim.GeneralRsp", "processGeneralRsp")] ∧
     drvGeneralRspDispatch = [("*protocol.FlushReq", "processFlushReturn"), ("*protocol.MemCopyH2DReq", "processMemCopyH2DReturn"),
       ("*protocol.MemCopyD2HReq", "processMemCopyD2HReturn")] ∧
@@ -463,7 +490,8 @@ theorem tie_dispatch :
 
 /-- the sources the models were transcribed from (hash of the normalised text per function) -/
 def auditedFuncs : List (String × String × String) := [
-  ("amd/driver/memorycopy.go", "defaultMemoryCopyMiddleware.ProcessCommand", "885723d88216aefb"),
+  ("amd/driver/memorycopy.go", "defaultMemoryCopyMiddleware.ProcessCommand", "5514be0b431fe22b"),
+  ("amd/driver/memorycopy.go", "defaultMemoryCopyMiddleware.processFlushCommand", "03fb7a49e87443a1"),
   ("amd/driver/memorycopy.go", "defaultMemoryCopyMiddleware.processMemCopyH2DCommand", "4980f75272546174"),
   ("amd/driver/memorycopy.go", "defaultMemoryCopyMiddleware.processMemCopyD2HCommand", "f3db5e9877ef20a8"),
   ("amd/driver/memorycopy.go", "defaultMemoryCopyMiddleware.needFlushing", "5b122ae963fb3740"),
@@ -486,7 +514,7 @@ def auditedFuncs : List (String × String × String) := [
   ("amd/driver/driver.go", "Driver.processNewCommandFromContext", "da79c8582d1c1092"),
   ("amd/driver/driver.go", "Driver.processNewCommandFromCmdQueue", "c69199a5c345ca65"),
   ("amd/driver/driver.go", "Driver.processOneCommand", "63e514f6b0c0e353"),
-  ("amd/driver/driver.go", "Driver.processCommandWithMiddleware", "5253ac2371bf6317"),
+  ("amd/driver/driver.go", "Driver.processCommandWithMiddleware", "e6e91db0d457ded0"),
   ("amd/driver/driver.go", "Driver.findCommandByReq", "551c0b4c05e96bff"),
   ("amd/timing/cp/dma.go", "RequestCollection.decrementCountIfExists", "ca1fa6e3ed39aa7e"),
   ("amd/timing/cp/dma.go", "RequestCollection.isFinished", "f0e88cff7f1f6fc6"),
@@ -512,17 +540,31 @@ def auditedFuncs : List (String × String × String) := [
   ("amd/timing/cp/cpMiddleware.go", "cpMiddleware.processRspFromDMAs", "13dc7bc746e76d52"),
   ("amd/timing/cp/cpMiddleware.go", "cpMiddleware.processMemCopyRsp", "ad2dcdb7bc6b987a"),
   ("amd/timing/cp/cpMiddleware.go", "cpMiddleware.findAndRemoveOriginalMemCopyRequest", "dc5d545ffcbd4a8e"),
-  ("amd/timing/cp/cpMiddleware.go", "cpMiddleware.processFlushReq", "63c3feee27483318"),
+  ("amd/timing/cp/cpMiddleware.go", "cpMiddleware.processFlushReq", "48192c5fa9ef0494"),
   ("amd/timing/cp/cpMiddleware.go", "cpMiddleware.processMemCopyReq", "7ec89f17794ac91e"),
   ("amd/timing/cp/cpMiddleware.go", "cpMiddleware.cloneMemCopyH2DReq", "50268e88b715f5e5"),
   ("amd/timing/cp/cpMiddleware.go", "cpMiddleware.cloneMemCopyD2HReq", "22265add106e7d90"),
   ("amd/timing/cp/cpMiddleware.go", "cpMiddleware.flushCache", "94d2848273686172"),
+  ("amd/timing/cp/cpMiddleware.go", "cpMiddleware.processLaunchKernelReq", "09a5dd5a7f9fcd08"),
+  ("amd/timing/cp/cpMiddleware.go", "cpMiddleware.invalidateL1CachesBeforeKernel", "d2cb472ae428af26"),
+  ("amd/timing/cp/cpMiddleware.go", "cpMiddleware.invalidateCache", "6e8074084a03027a"),
+  ("amd/timing/cp/cpMiddleware.go", "cpMiddleware.findAvailableDispatcher", "c09094f13d3f2a53"),
   ("amd/timing/cp/ctrlMiddleware.go", "ctrlMiddleware.Tick", "09eb5fa80a12fa09"),
   ("amd/timing/cp/ctrlMiddleware.go", "ctrlMiddleware.HandleInternal", "e30134efaa2f657a"),
   ("amd/timing/cp/ctrlMiddleware.go", "ctrlMiddleware.processRspFromCaches", "88ce0195528bdcb9"),
-  ("amd/timing/cp/ctrlMiddleware.go", "ctrlMiddleware.processCacheFlushRsp", "99cb0b858bf867a6"),
+  ("amd/timing/cp/ctrlMiddleware.go", "ctrlMiddleware.processCacheFlushRsp", "04233bd50f191615"),
   ("amd/timing/cp/ctrlMiddleware.go", "ctrlMiddleware.processRegularCacheFlush", "eeb6daf79c2768df"),
   ("amd/timing/cp/ctrlMiddleware.go", "ctrlMiddleware.processCacheFlushCausedByTLBShootdown", "7003d0a071bdedbc"),
+  ("amd/timing/cp/ctrlMiddleware.go", "ctrlMiddleware.Handle", "a47e8210e75c5ae4"),
+  ("amd/timing/cp/ctrlMiddleware.go", "ctrlMiddleware.processShootdownCommand", "13177b6d6bddb400"),
+  ("amd/timing/cp/ctrlMiddleware.go", "ctrlMiddleware.processRspFromCUs", "aa7e745aa172e175"),
+  ("amd/timing/cp/ctrlMiddleware.go", "ctrlMiddleware.processRspFromATs", "28f0f706e172bb7e"),
+  ("amd/timing/cp/ctrlMiddleware.go", "ctrlMiddleware.processRspFromTLBs", "d779d3d6779f0553"),
+  ("amd/timing/cp/ctrlMiddleware.go", "ctrlMiddleware.processCUPipelineFlushRsp", "b5a3f0f9d53204c5"),
+  ("amd/timing/cp/ctrlMiddleware.go", "ctrlMiddleware.processAddressTranslatorFlushRsp", "d431322707837bac"),
+  ("amd/timing/cp/ctrlMiddleware.go", "ctrlMiddleware.flushAndResetL1Cache", "5b5980a6c2464d76"),
+  ("amd/timing/cp/ctrlMiddleware.go", "ctrlMiddleware.flushAndResetL2Cache", "44627ce4a1779f6a"),
+  ("amd/timing/cp/ctrlMiddleware.go", "ctrlMiddleware.processTLBFlushRsp", "a2174faa01d6d5f7"),
   ("amd/timing/cp/commandprocessor.go", "CommandProcessor.Tick", "6dfacc5f1c2c26b8"),
   ("amd/timing/cp/commandprocessor.go", "CommandProcessor.tickDispatchers", "eaffc21b5315f18f"),
   ("amd/timing/cp/commandprocessor.go", "CommandProcessor.processReqFromDriver", "808f33c781009440"),
@@ -531,10 +573,11 @@ def auditedFuncs : List (String × String × String) := [
   ("amd/emu/storageaccessor.go", "storageAccessorImpl.Write", "aed60162ac39c745")]
 
 /-- **The hand-transcribed functions are unchanged**: the source of every function that `C11.pieces`,
-    `C11.needFlushing`, `C11.Dma`, `C11.Cp`, `C11.Mq` and `C11.accStep` transcribe (all of
+    `C11.needFlushing`, `C11.Dma`, `C11.Cp`, `C11.CpS`, `C11.Mq` and `C11.accStep` transcribe (all of
     `memorycopy.go`, `memorycopyglobalstorage.go`, `dma.go`; the copy path of `driver.go`,
-    `cpMiddleware.go`, `ctrlMiddleware.go`, `commandprocessor.go`; `storageaccessor.go`'s `Read` /
-    `Write`) has the hash it had when the model was written. An edit of any of them (e.g. a statement
+    `cpMiddleware.go`, `ctrlMiddleware.go`, `commandprocessor.go` — since the third pass also the kernel-launch
+    path `processLaunchKernelReq` / `invalidateL1CachesBeforeKernel` / `invalidateCache` and the shootdown
+    path of `ctrlMiddleware.go` that `C11.CpS` transcribes; `storageaccessor.go`'s `Read` / `Write`) has the hash it had when the model was written. An edit of any of them (e.g. a statement
     added to `completeCommandIfDone`) breaks this obligation; `changedFuncs` names the function. The
     model has to be re-read against the new source before the hash is updated. -/
 theorem tie_modelled_functions_unchanged : Gen.C11Copy.modelledFuncs = auditedFuncs := by decide
